@@ -59,7 +59,32 @@ type Case struct {
 	Origin string `json:"origin,omitempty"`
 }
 
-func unhex(s string) []byte { b, _ := hex.DecodeString(s); return b }
+// cb renders a byte string as a Coq term; long strings are split into 32-byte
+// chunks because the [bs len 0xHEX] literal is quadratic in its length.
+func cb(b []byte) string {
+	if len(b) <= 48 {
+		return coqout.Bytes(b)
+	}
+	var parts []string
+	for i := 0; i < len(b); i += 32 {
+		parts = append(parts, coqout.Bytes(b[i:min(i+32, len(b))]))
+	}
+	return "(" + strings.Join(parts, " ++ ") + ")"
+}
+
+// unhex returns a slice whose capacity equals its length, so that a re-slice
+// past the end panics in the implementation instead of silently reading the
+// spare capacity of the buffer.
+func unhex(s string) []byte {
+	b, _ := hex.DecodeString(s)
+	return exact(b)
+}
+
+func exact(b []byte) []byte {
+	out := make([]byte, len(b))
+	copy(out, b)
+	return out[:len(b):len(b)]
+}
 
 // ---------- guarded execution ----------
 type guardResult struct {
@@ -150,14 +175,14 @@ func coqRes(g guardResult, err error, okTerm string) string {
 }
 
 func coqLeaf(l *node.LeafNode) string {
-	return fmt.Sprintf("(mkLeaf %s %s)", coqout.Bytes(l.Key), coqout.Bytes(l.Value))
+	return fmt.Sprintf("(mkLeaf %s %s)", cb(l.Key), cb(l.Value))
 }
 
 func coqOptHash(p *node.Pointer) string {
 	if p == nil {
 		return "None"
 	}
-	return "(Some " + coqout.Bytes(p.Hash[:]) + ")"
+	return "(Some " + cb(p.Hash[:]) + ")"
 }
 
 func coqOptLeaf(p *node.Pointer) string {
@@ -171,7 +196,7 @@ func coqOptLeaf(p *node.Pointer) string {
 }
 
 func coqInode(n *node.InternalNode) string {
-	return fmt.Sprintf("(mkInode %d %s %s %s %s)", n.LabelBitLength, coqout.Bytes(n.Label), coqOptLeaf(n.LeafNode), coqOptHash(n.Left), coqOptHash(n.Right))
+	return fmt.Sprintf("(mkInode %d %s %s %s %s)", n.LabelBitLength, cb(n.Label), coqOptLeaf(n.LeafNode), coqOptHash(n.Left), coqOptHash(n.Right))
 }
 
 func coqPtr(p *node.Pointer) string {
@@ -180,11 +205,11 @@ func coqPtr(p *node.Pointer) string {
 	}
 	switch n := p.Node.(type) {
 	case nil:
-		return "(PHash " + coqout.Bytes(p.Hash[:]) + ")"
+		return "(PHash " + cb(p.Hash[:]) + ")"
 	case *node.LeafNode:
 		return "(PLeaf " + coqLeaf(n) + ")"
 	case *node.InternalNode:
-		return fmt.Sprintf("(PInt %d %s %s %s %s)", n.LabelBitLength, coqout.Bytes(n.Label), coqPtr(n.LeafNode), coqPtr(n.Left), coqPtr(n.Right))
+		return fmt.Sprintf("(PInt %d %s %s %s %s)", n.LabelBitLength, cb(n.Label), coqPtr(n.LeafNode), coqPtr(n.Left), coqPtr(n.Right))
 	}
 	return "PNil"
 }
@@ -195,7 +220,7 @@ func coqEntries(es [][]byte) string {
 		if e == nil {
 			items[i] = "None"
 		} else {
-			items[i] = "(Some " + coqout.Bytes(e) + ")"
+			items[i] = "(Some " + cb(e) + ")"
 		}
 	}
 	return coqout.List(items)
@@ -206,9 +231,6 @@ func entriesOf(c Case) [][]byte {
 	for i, e := range c.Entries {
 		if e != nil {
 			es[i] = unhex(*e)
-			if es[i] == nil {
-				es[i] = []byte{}
-			}
 		}
 	}
 	return es
@@ -245,25 +267,25 @@ func runModelCase(c Case) (o outcome) {
 		var d node.Depth
 		var n int
 		g = guarded(func() { n, err = d.UnmarshalBinary(data) })
-		in = "CDepth " + coqout.Bytes(data)
+		in = "CDepth " + cb(data)
 		out = "ODepth " + coqRes(g, err, fmt.Sprintf("(%d, %d)", d, n))
 	case "key":
 		var k node.Key
 		var n int
 		g = guarded(func() { n, err = k.SizedUnmarshalBinary(data) })
-		in = "CKey " + coqout.Bytes(data)
-		out = "OKey " + coqRes(g, err, fmt.Sprintf("(%s, %d)", coqout.Bytes(k), n))
+		in = "CKey " + cb(data)
+		out = "OKey " + coqRes(g, err, fmt.Sprintf("(%s, %d)", cb(k), n))
 	case "leaf":
 		var l node.LeafNode
 		var n int
 		g = guarded(func() { n, err = l.SizedUnmarshalBinary(data) })
-		in = "CLeaf " + coqout.Bytes(data)
+		in = "CLeaf " + cb(data)
 		out = "OLeaf " + coqRes(g, err, fmt.Sprintf("(%s, %d)", coqLeaf(&l), n))
 	case "inode":
 		var nd node.InternalNode
 		var n int
 		g = guarded(func() { n, err = nd.SizedUnmarshalBinary(data) })
-		in = "CInode " + coqout.Bytes(data)
+		in = "CInode " + cb(data)
 		okT := ""
 		if err == nil && !g.panicked {
 			okT = fmt.Sprintf("(%s, %d)", coqInode(&nd), n)
@@ -272,7 +294,7 @@ func runModelCase(c Case) (o outcome) {
 	case "node":
 		var nd node.Node
 		g = guarded(func() { nd, err = node.UnmarshalBinary(data) })
-		in = "CNode " + coqout.Bytes(data)
+		in = "CNode " + cb(data)
 		okT := ""
 		if err == nil && !g.panicked {
 			switch x := nd.(type) {
@@ -297,13 +319,16 @@ func runModelCase(c Case) (o outcome) {
 		// this is an internal function reached through the hook, so that
 		// panic is expected behaviour that the model must reproduce.
 		expectPanic = c.V > syncer.LatestProofVersion
+		if err == nil && !g.panicked && ptrNesting(ptr) > specMaxNesting {
+			o.violation = fmt.Sprintf("walk: proof walk accepted a subtree nested %d levels deep (bound %d): recursion depth not bounded by maxProofDepth", ptrNesting(ptr), specMaxNesting)
+		}
 		in = fmt.Sprintf("CWalk %d %s", c.V, coqEntries(es))
 		okT, wlT := "", "[]"
 		if err == nil && !g.panicked {
 			okT = fmt.Sprintf("(%d, %s)", idx, coqPtr(ptr))
 			items := make([]string, len(wl))
 			for i, e := range wl {
-				items[i] = fmt.Sprintf("(%s, %s)", coqout.Bytes(e.k), coqout.Bytes(e.v))
+				items[i] = fmt.Sprintf("(%s, %s)", cb(e.k), cb(e.v))
 			}
 			wlT = coqout.List(items)
 		}
@@ -326,9 +351,13 @@ func runModelCase(c Case) (o outcome) {
 			untrusted.FromBytes([]byte("another root"))
 		}
 		var pv syncer.ProofVerifier
+		var rootPtr *node.Pointer
 		g = guarded(func() {
-			_, err = pv.VerifyProof(context.Background(), root, &syncer.Proof{V: c.V, UntrustedRoot: untrusted, Entries: es})
+			rootPtr, err = pv.VerifyProof(context.Background(), root, &syncer.Proof{V: c.V, UntrustedRoot: untrusted, Entries: es})
 		})
+		if err == nil && !g.panicked && ptrNesting(rootPtr) > specMaxNesting {
+			o.violation = fmt.Sprintf("proof: VerifyProof accepted a proof nested %d levels deep (bound %d): recursion depth not bounded by maxProofDepth", ptrNesting(rootPtr), specMaxNesting)
+		}
 		if err == nil && !g.panicked {
 			// the write-log variant must agree
 			var err2 error
@@ -345,14 +374,14 @@ func runModelCase(c Case) (o outcome) {
 		var b []byte
 		k := node.Key(unhex(c.Key))
 		g = guarded(func() { b, err = k.MarshalBinary() })
-		in = "CEncKey " + coqout.Bytes(k)
-		out = "OBytes " + coqout.Bytes(b)
+		in = "CEncKey " + cb(k)
+		out = "OBytes " + cb(b)
 	case "enc_leaf":
 		l := &node.LeafNode{Key: unhex(c.Key), Value: unhex(c.Value)}
 		var b []byte
 		g = guarded(func() { b, err = l.MarshalBinary() })
 		in = "CEncLeaf " + coqLeaf(l)
-		out = "OBytes " + coqout.Bytes(b)
+		out = "OBytes " + cb(b)
 	case "enc_inode":
 		nd := inodeOf(c)
 		var b []byte
@@ -367,7 +396,7 @@ func runModelCase(c Case) (o outcome) {
 			}
 		})
 		in = fmt.Sprintf("CEncInode %d %s", c.Mode, coqInode(nd))
-		out = "OBytes " + coqout.Bytes(b)
+		out = "OBytes " + cb(b)
 	default:
 		panic("unknown case kind " + c.Kind)
 	}
@@ -391,6 +420,21 @@ func runModelCase(c Case) (o outcome) {
 		o.class = "err-unclassified"
 	}
 	return o
+}
+
+// specMaxNesting is the bound of the property on the nesting of a verified
+// proof: maxProofDepth (128, pinned by theorem gen_proof_consts_expected) + 1
+// levels of pointers below the root.
+const specMaxNesting = 129
+
+func ptrNesting(p *node.Pointer) int {
+	if p == nil {
+		return 0
+	}
+	if n, ok := p.Node.(*node.InternalNode); ok {
+		return 1 + max(ptrNesting(n.LeafNode), ptrNesting(n.Left), ptrNesting(n.Right))
+	}
+	return 0
 }
 
 type syncerLogEntry struct{ k, v []byte }
@@ -903,7 +947,8 @@ func runSearch(seed uint64, n int, out string, rc *Case) {
 	}
 	runOne := func(t searchTarget, b []byte) (guardResult, error) {
 		var err error
-		g := guarded(func() { err = t.fn(b) })
+		in := exact(b)
+		g := guarded(func() { err = t.fn(in) })
 		return g, err
 	}
 	seen := map[string]bool{}
